@@ -109,6 +109,17 @@ CHECKS = {
          "answers for added-but-unflushed hashes are free (statement speaks about the flushed set); Len() not judged",
          "TLA+ spec HashSet.tla; TLC-enumerated operation sequences replayed into pkg/index; TLC trace validation (TraceHashSet.tla)",
          "DESIGN.md 5/C20"),
+ "C13": ("crash", "fault_enumeration",
+         "Every store write of commit (new / existing branch), merge (fast-forward / merge commit), prune and gc, run through the real "
+         "command line, is a crash point: the verif hooks in the badger and SQL stores record the write sequence and TLC (TraceCrash.tla) "
+         "evaluates Crash!RepoConsistent (refs -> present commits, commits have parents, present tables have blocks / block indices / table "
+         "index, written heads have their table) in the state after EVERY write on the structure scanned from the real stores; the real wrgl "
+         "binary is killed at its n-th write for every n, the reopened store scanned and judged by the same invariant, the command re-run and "
+         "its end state compared with the uninterrupted run; CrashModel.tla (TLC) shows that every linearization of the safe precedence is "
+         "consistent at every crash point and that the pre-repair orders are not.",
+         "crash points are store-write boundaries; durability below the store API trusted; receive paths covered by the sync traces",
+         "TLA+ specs Crash.tla / CrashModel.tla (TLC); TLC trace validation (TraceCrash.tla) of hook-recorded write sequences and of post-kill store scans of the real binary",
+         "DESIGN.md 5/C13"),
  "C15": ("refs", "model_checking",
          "TLC explores the ref-store specification (Refs.tla) exhaustively over an alphabet of names with '_', '%', case variants "
          "and nested prefixes; every transition of the model's state graph is replayed on the real SQL ref store with return value "
